@@ -255,5 +255,5 @@ TESTS = {
                   "n": {"quick": 1500, "thorough": 20000}},
     "big": {"strategy": lambda tier: case_strategy.map(lambda c: dict(c, n=(100 + c["n"][0] % 200, c["n"][1], c["n"][2]))),
             "check": check_big,
-            "n": {"quick": 8, "thorough": 160}},
+            "n": {"quick": 40, "thorough": 400}},
 }
